@@ -232,6 +232,17 @@ def compare_query(sc, py, lean, observables):
                 if n > 2 * spec["exams"] + 2:
                     diffs.append(("spec", ob, f"{n} match attempts of the search itself, the definition needs {spec['exams']} examinations (bound 2x)"))
             continue
+        if ob == "documented":
+            # whatever call of the history it is raised by (also a next() after an earlier error was caught):
+            # an exception that is not one of the library's own classes is a failing input
+            import treepath
+            for k, seg in enumerate(py):
+                if seg["s"][0] == "X":
+                    cls = getattr(treepath, seg["s"][1][0], None)
+                    if not (isinstance(cls, type) and issubclass(cls, treepath.TreepathException)):
+                        diffs.append(("spec", ob, f"call {k} raised {seg['s'][1]}: not an exception of the library"))
+                        break
+            continue
         if ob == "leaf_events":
             d = leaf_events_diff(py, sc)
             if d:
